@@ -200,6 +200,12 @@ func postBlock(fw *formatWriter, source []byte, cursor *commonmark.Cursor) {
 		if !cursor.ParentBlock().IsTightList() {
 			fw.s("\n")
 		}
+	case commonmark.BlockQuoteKind:
+		if fw.startedLine {
+			// An empty block quote has only written its marker:
+			// end the line so that it does not merge with what follows.
+			fw.s("\n")
+		}
 	case commonmark.ListItemKind:
 		if fw.startedLine || !b.IsTightList() {
 			// An item of a tight list that ends in a nested list
